@@ -149,10 +149,16 @@ func init() {
 			}
 		}
 	}
-	extraRules["C14"] = both(stale("proof"), loopShare("proof"))
+	flowOf := func(prop string) func(c *Ctx) {
+		return func(c *Ctx) {
+			specs, reads := FlowSpecs(c, prop)
+			CheckFlow(c, prop, specs, reads)
+		}
+	}
+	extraRules["C14"] = both(stale("proof"), loopShare("proof"), flowOf("C14"))
 	extraRules["C13"] = both(stale("share/pvss", "proof/dleq"), roTargetsFor("share/pvss.", "proof/dleq."), loopShare("share/pvss", "proof/dleq"),
 		func(c *Ctx) { AccGate(c, "default", "C13") })
-	extraRules["C06"] = both(roTargetsFor(").Pair", ").ValidatePairing"), func(c *Ctx) { SiblingSkeletonCheck(c, "default") })
+	extraRules["C06"] = both(roTargetsFor(").Pair", ").ValidatePairing"), func(c *Ctx) { SiblingSkeletonCheck(c, "default") }, flowOf("C06"))
 	extraRules["__ro_c08"] = roTargetsFor("sign/eddsa.", "sign/schnorr.", "sign/anon.Verify", "sign/anon.Sign")
 	// ciphertexts, keys and messages are inputs only: a decryptor that writes into its ciphertext can
 	// make its own integrity comparison vacuous (anon header) or break a second decryption
@@ -288,6 +294,10 @@ func init() {
 	Register(&Property{ID: "C18", Trusted: commonTrusted, RuleText: "SH-SIBCONST / SH-CONFIG / EFX per configuration", Explanation: "implementations agree (structure)", Run: func(c *Ctx) {
 		SiblingConstants(c, "default")
 		SiblingSkeletonCheck(c, "default")
+		{
+			specs, reads := FlowSpecs(c, "C18")
+			CheckFlow(c, "C18", specs, reads)
+		}
 		// the three scalar-multiplication algorithms / build variants must each assign their whole output on every path
 		CheckMustWrite(c, "C01")
 		cfgs := []string{"default", "ct", "generic"}
